@@ -1,6 +1,8 @@
 import EpgVerif.Props.C03
+import EpgVerif.Tie.DiffSites
 open EpgVerif.Props.C03
 #print axioms order2_accumulates_every_term_once
 #print axioms hessian_symm
 #print axioms termsB_single
 #print axioms EpgVerif.Diff.val_mirror_swapped
+#print axioms EpgVerif.Tie.DiffSites.sites_as_modelled
